@@ -109,6 +109,10 @@ def install():
                 if kind == "repeat":
                     rec["start"], rec["stop"], rec["step"] = (int(self.args["start"]), int(self.args["stop"]),
                                                               int(self.args["step"]))
+                elif kind == "switch":
+                    # Hardcode.switch hands the parser the texts of Hardcode.repeat over range(begin_at, count + 1)
+                    rec["kind"], rec["via"] = "repeat", "switch"
+                    rec["start"], rec["stop"], rec["step"] = int(self.args["begin_at"]), int(self.args["count"]) + 1, 1
                 elif kind == "list":
                     rec["strings"] = self.datapack.parse_list(self.raw_args["strings"].token, self.tokenizer,
                                                               TokenType.STRING)[0]
@@ -123,6 +127,8 @@ def install():
     wrap_hardcode(EE.HardcodeRepeat, "repeat")
     wrap_hardcode(EE.HardcodeRepeatList, "list")
     wrap_hardcode(EE.HardcodeRepeatLists, "lists")
+    if hasattr(EE, "HardcodeSwitch"):
+        wrap_hardcode(EE.HardcodeSwitch, "switch")
 
     from jmc.compile.utils import clean_up_paren_token
     PARENS = (TokenType.PAREN_CURLY, TokenType.PAREN_ROUND, TokenType.PAREN_SQUARE)
